@@ -386,9 +386,17 @@ func wWriteChunk(dst io.Writer, chunk string) error {
 type wRunner struct {
 	p     *wProc
 	xlate bool // host and plugin in different file-system namespaces (see wVisible)
+
+	startFails bool
 }
 
-func (r *wRunner) Start(ctx context.Context) error     { r.p.launch(); return nil }
+func (r *wRunner) Start(ctx context.Context) error {
+	if r.startFails {
+		return errors.New("runner: cannot start the plugin")
+	}
+	r.p.launch()
+	return nil
+}
 func (r *wRunner) Diagnose(ctx context.Context) string { return "" }
 func (r *wRunner) Stdout() io.ReadCloser               { return r.p.stdout }
 func (r *wRunner) Stderr() io.ReadCloser               { return r.p.stderr }
@@ -416,6 +424,7 @@ type wCmdGhost struct {
 	p                  *wProc
 	outPiped, errPiped bool
 	started            bool
+	execFails          bool // fork/exec fails (binary missing or not executable): Start returns an error, Process stays nil
 }
 
 var wCmdG = map[*exec.Cmd]*wCmdGhost{}
@@ -463,6 +472,11 @@ func mCmdStart(c *exec.Cmd) error {
 		return errors.New("exec: already started")
 	}
 	g.started = true
+	if g.execFails {
+		g.p.stdout.closeWrite() // exec.Cmd closes the descriptors it created for the child
+		g.p.stderr.closeWrite()
+		return errors.New("fork/exec " + c.Path + ": no such file or directory")
+	}
 	wLastCmdEnv, wLastCmdStdin = c.Env, c.Stdin
 	for _, kv := range c.Env { // the child's environment is what the host built (last duplicate wins)
 		k, v, _ := strings.Cut(kv, "=")
@@ -480,6 +494,9 @@ func mCmdStart(c *exec.Cmd) error {
 //verif:model (*os/exec.Cmd).Wait
 func mCmdWait(c *exec.Cmd) error {
 	g := wCmdG[c]
+	if c.Process == nil {
+		return errors.New("exec: not started")
+	}
 	<-g.p.dead
 	if g.p.exitCode != 0 {
 		return errors.New("exit status / signal: killed")
@@ -489,6 +506,7 @@ func mCmdWait(c *exec.Cmd) error {
 
 //verif:model (*os.Process).Kill
 func mProcessKill(p *os.Process) error {
+	_ = p.Pid // the real method reads the process handle: a nil *os.Process is a nil-pointer dereference
 	wp := wProcOfOS[p]
 	if wp == nil || wp.isDead {
 		return os.ErrProcessDone
@@ -512,6 +530,7 @@ func mFindProcess(pid int) (*os.Process, error) {
 
 //verif:model (*os.Process).Signal
 func mProcessSignal(p *os.Process, sig os.Signal) error {
+	_ = p.Pid
 	wp := wProcOfOS[p]
 	if wp == nil || wp.isDead {
 		return os.ErrProcessDone
